@@ -981,6 +981,57 @@ def field_sequence(item, kind, log, root='self'):
                     k = end
                     continue
             k += 1
+    if kind in ('tlvwrite', 'tlvread'):
+        # R21 (TLV tables): every invocation of a TLV-stream macro in the function, in source order; for each its records as
+        # "TYPE:NAME" (NAME: the record's expression without `self.` / `&` / `*` and, for a plain field path, its last segment),
+        # preceded by a "#" separator
+        macros = ('write_tlv_fields', 'encode_tlv_stream') if kind == 'tlvwrite' else ('read_tlv_fields', 'decode_tlv_stream', '_init_and_read_len_prefixed_tlv_fields', '_init_and_read_tlv_stream')
+        names = []
+        tx = [t.text for t in body]
+        k = 0
+        while k + 2 < len(tx):
+            if tx[k] in macros and tx[k + 1] == '!' and tx[k + 2] == '(':
+                e = match_close(body, k + 2)
+                # the brace group with the records
+                b = k + 3
+                while b < e and tx[b] != '{':
+                    b += 1
+                if b < e:
+                    be = match_close(body, b)
+                    names.append(('#', body[k].line))
+                    r = b + 1
+                    while r < be:
+                        if tx[r] == '(':
+                            re_ = match_close(body, r)
+                            parts = []
+                            cur = []
+                            d = 0
+                            for x in range(r + 1, re_):
+                                if tx[x] in OPEN:
+                                    d += 1
+                                elif tx[x] in (')', ']', '}'):
+                                    d -= 1
+                                if tx[x] == ',' and d == 0:
+                                    parts.append(cur)
+                                    cur = []
+                                else:
+                                    cur.append(tx[x])
+                            parts.append(cur)
+                            if len(parts) >= 2:
+                                ex = [x for x in parts[1] if x not in ('&', '*', 'ref', 'mut')]
+                                if ex[:2] == ['self', '.']:
+                                    ex = ex[2:]
+                                if all((x == '.' if q % 2 == 1 else ident.match(x)) for q, x in enumerate(ex)) and len(ex) % 2 == 1:
+                                    nm = ex[-1]
+                                else:
+                                    nm = ''.join(ex)
+                                names.append(('%s:%s' % (''.join(parts[0]), nm.replace('"', "'")), body[r].line))
+                            r = re_ + 1
+                        else:
+                            r += 1
+                k = e + 1
+            else:
+                k += 1
     if len(names) < 2:
         raise Maintenance('R21: fewer than two %s statements found' % kind)
     log.append(('R21', item[0].file, item[0].line, 'field sequence (%s): %s' % (kind, ', '.join(n for n, _ in names))))
